@@ -1,2 +1,5 @@
 import TinsModel.Props.C06
 #print axioms Tins.Props.C06.seq_compare_is_absolute_order
+#print axioms Tins.Props.C06.tracker_refines_spec_wide
+#print axioms Tins.Props.C06.tracker_refines_spec
+#print axioms Tins.Props.C06.tracker_refines_spec_every_moment
